@@ -68,6 +68,9 @@ func runC04(c *Ctx) {
 	c.guard("R04-rootpv", func() { c04RootPV(c) })
 	c.guard("R04-depth1", func() { c04Depth1(c) })
 	c.guard("R04-engines", func() { c04Engines(c) })
+	// the move is legal in the position last set up only if that position is what the command said:
+	// Engine.Move plays exactly the generated move the text denotes (rule of C19, re-decided here)
+	c.guard("R04-engines", func() { r.WithAlias("R19-move", "R04-engines", func() { c19Move(c) }) })
 }
 
 func isBestmoveSend(s *ssa.Send) (isBest, isNull bool) {
@@ -331,10 +334,23 @@ func c04Complete(c *Ctx, d *driverModel) {
 		r.Fail("R04-complete", "stop completes with the halted PV", c.pos(d.process.Pos()), "", "no stop arm")
 	} else {
 		good, detail := false, "the stop arm does not call the completion function"
+		// the blocks of the stop arm, and those of a driver helper the arm hands the job to
+		var armBlocks []*ssa.BasicBlock
 		for _, b := range d.process.Blocks {
-			if !(b == stop || stop.Dominates(b)) {
-				continue
+			if b == stop || stop.Dominates(b) {
+				armBlocks = append(armBlocks, b)
 			}
+		}
+		for _, b := range append([]*ssa.BasicBlock{}, armBlocks...) {
+			for _, ins := range b.Instrs {
+				if call, ok := ins.(ssa.CallInstruction); ok {
+					if h := call.Common().StaticCallee(); h != nil && h.Blocks != nil && h.Pkg == d.process.Pkg && h != d.searchCompleted && h != d.ensureInactive && h != d.process {
+						armBlocks = append(armBlocks, h.Blocks...)
+					}
+				}
+			}
+		}
+		for _, b := range armBlocks {
 			for _, ins := range b.Instrs {
 				call, ok := ins.(ssa.CallInstruction)
 				if !ok || call.Common().StaticCallee() != d.searchCompleted {
